@@ -21,10 +21,10 @@ func init() {
 	register(&Check{
 		ID: "C20", Level: "exploration", Configs: []string{"clean"},
 		Run:         runC20,
-		QuickRuns:   600_000,
+		QuickRuns:   400_000,
 		ThoroughSec: 480,
 		Rule: "one run = a stream of 2-16 generated well-formed packets delivered into ONE recycled receive buffer; each decoded packet is cloned (Packet.Clone, Header.Clone), the clone is retained " +
-			"for 1-5 later deliveries (which overwrite the buffer the original aliases) and one drawn mutation is applied to the original or to the clone (payload byte, CSRC entry, extension " +
+			"for 1-5 later deliveries (which overwrite the buffer the original aliases); the sender likewise clones packets it built in memory (nil payloads, padding-only packets) into a retransmission buffer; one drawn mutation is applied to the original or to the clone (payload byte, CSRC entry, extension " +
 			"value byte through GetExtension, SetExtension of an existing/new id, DelExtension); fingerprint = hash(packet shape, mutation kind, target, retention length); " +
 			"non-trivial = the clone outlived a recycle of the buffer or a mutation was applied",
 		Real: []string{"rtp.Packet.Clone", "rtp.Header.Clone", "rtp.Packet.Unmarshal", "rtp.Packet.Marshal", "rtp.Header.SetExtension", "rtp.Header.DelExtension", "rtp.Header.GetExtension"},
@@ -32,7 +32,7 @@ func init() {
 		Assumptions: []string{
 			"equality is judged on header fields, CSRC, extension ids/values in order, payload, PaddingSize and on Marshal() bytes; ExtensionProfile only when the X bit is set",
 		},
-		ProbeNames: []string{"clone-outlived-recycle", "mutate-original-ext-value", "mutate-clone-set-new-id", "packet-with-everything"},
+		ProbeNames: []string{"clone-outlived-recycle", "mutate-original-ext-value", "mutate-clone-set-new-id", "packet-with-everything", "sender-nil-payload"},
 	})
 }
 
@@ -166,6 +166,48 @@ func runC20(c *core.Ctx) {
 		spec := genPacketSpec(t, 60)
 		if len(spec.payload) == 0 && t.Bool() {
 			spec.payload = t.Bytes(1 + t.Intn(8))
+		}
+		// sender side: packets built in memory through the public API (nil payloads and padding-only
+		// packets such as GeneratePadding's exist only here) are cloned into a retransmission buffer
+		if t.Chance(1, 2) && len(c.Viol) == 0 {
+			if pk, ok := spec.build(c); ok {
+				if len(spec.payload) == 0 && t.Bool() {
+					pk.Payload = nil
+					c.Probe("sender-nil-payload")
+				}
+				var cl *rtp.Packet
+				var hc rtp.Header
+				if !c.Guard("rtp.Packet.Clone", func() { cl = pk.Clone(); hc = pk.Header.Clone() }) && cl != nil {
+					if k2, a, b := c20diff(c, cl, spec); k2 != "" {
+						c.Violate("equal", "C20/clone-differs-at-clone-time/"+k2, "Clone() of a packet built in memory has %s=%s, the packet has %s (%s)", k2, a, b, spec)
+					} else {
+						var ob, cb []byte
+						var e1, e2 error
+						c.Guard("rtp.Packet.Marshal", func() { ob, e1 = pk.Marshal(); cb, e2 = cl.Marshal() })
+						if (e1 == nil) != (e2 == nil) || !bytes.Equal(ob, cb) {
+							c.Violate("equal", "C20/clone-differs-at-clone-time/marshal-bytes", "a packet built in memory marshals to %d bytes (err %v), its clone to %d bytes (err %v) (%s)", len(ob), e1, len(cb), e2, spec)
+						} else {
+							model := *spec
+							model.csrc = append([]uint32(nil), spec.csrc...)
+							model.exts = nil
+							for _, e := range spec.exts {
+								model.exts = append(model.exts, extEl{e.id, append([]byte{}, e.val...)})
+							}
+							model.payload = append([]byte{}, spec.payload...)
+							r := &retained{spec: &model, orig: spec, cl: cl, hc: hc, until: 1 + t.Intn(4)}
+							if e2 == nil {
+								r.img = cb
+							}
+							if mut := t.Intn(7); mut > 0 {
+								c20mutate(c, t, mut, t.Bool(), pk, r)
+							}
+							if checkClone(r, "sender") {
+								jb = append(jb, r)
+							}
+						}
+					}
+				}
+			}
 		}
 		w.Send(datagram{frame: k, b: spec.encode(), meta: spec})
 		loop.After(int64(100_000+t.Intn(10_000_000)), func() { send(k + 1) })
